@@ -20,6 +20,8 @@ class Source:
         self.root = root or REPO
         self.overrides = dict(overrides or {})
         self._text = {}
+        self._raw = {}
+        self.canonical = os.environ.get('AVS_NO_CANON') is None
         self._tree = {}
         self._funcs = {}
         self.consulted = set()
@@ -31,13 +33,21 @@ class Source:
     def text(self, rel):
         if rel not in self._text:
             if rel in self.overrides:
-                self._text[rel] = self.overrides[rel]
+                raw = self.overrides[rel]
             else:
                 p = os.path.join(self.root, rel)
                 if not os.path.isfile(p):
                     raise AnalysisError(f'anchor file missing: {rel}')
                 with open(p, encoding='utf-8') as f:
-                    self._text[rel] = f.read()
+                    raw = f.read()
+            self._raw[rel] = raw
+            if self.canonical and rel.endswith('.py'):
+                from .canon import canonicalise
+                try:
+                    raw = canonicalise(rel, raw)
+                except Exception:      # canonicalisation is best effort: never let it break a check
+                    pass
+            self._text[rel] = raw
         self.consulted.add(rel)
         return self._text[rel]
 
@@ -57,7 +67,7 @@ class Source:
         h = hashlib.sha256()
         for rel in sorted(self.consulted):
             h.update(rel.encode())
-            h.update(self._text.get(rel, '').encode())
+            h.update(self._raw.get(rel, self._text.get(rel, '')).encode())
         return h.hexdigest()[:16]
 
     # -------------------------------------------------------------- functions
@@ -232,3 +242,16 @@ def fold_str(node, env=None):
         if a is not None and b is not None:
             return a + b
     return None
+
+
+def early_exits(loop, kinds=(ast.Continue, ast.Break, ast.Return)):
+    """continue / break / return statements that leave an iteration of `loop` itself (not of an inner loop)."""
+    out = []
+    for n in walk_no_nested(loop):
+        if isinstance(n, kinds):
+            p = getattr(n, '_parent', None)
+            while p is not None and not isinstance(p, (ast.For, ast.While)):
+                p = getattr(p, '_parent', None)
+            if p is loop or isinstance(n, ast.Return):
+                out.append(n)
+    return out
